@@ -396,7 +396,45 @@ def c17(ctx):
                 "under RFC 3986 5.2 or under the library's resolver; None is a violation only for a same-document IRI for which a reference exists. distinct = triples" % (npairs, maxlen))
 
 
+def show_quads(qs):
+    return " . ".join(" ".join(show_term(t) for t in q) for q in qs)
+
+
+def c07(ctx):
+    binary = build()
+    mc = Bg(lambda: model_check(ctx, "MC_Iso", workers=4, timeout=900))
+    tr = os.path.join(ctx.traces, "iso.ndjson")
+    n = 1500 if ctx.quick() else 30000
+    sv(binary, ["iso", "--n", n, "--seed", ctx.seed, "--out", tr], ctx=ctx)
+    trace = read_trace(tr)
+    mism = trace_check(ctx, "Trace_Iso", tr, timeout=3000)
+    bad = set()
+    for line, fields in mism:
+        e = trace[line - 1]
+        bad.add(line)
+        code, idx = fields[0], int(fields[1]) if len(fields) > 1 else 0
+        if e["ev"] == "Iso":
+            who = e["names"][idx - 1] if idx else ""
+            star = "quoted" if "triple" in json.dumps(e["d1"]) else "plain"
+            key = "%s/%s/%s" % (code, e["kind"], star)
+            detail = "%s [%s]: d1 = { %s } ; d2 = { %s } ; answers %s" % (code, who, show_quads(e["d1"]), show_quads(e["d2"]), e["res"])
+        else:
+            key, detail = "panic/" + e.get("kind", ""), "panic: %s" % e.get("msg")
+        ctx.violations.append({"key": key, "detail": detail, "event": e, "trace": tr, "line": line})
+    ctx.traces_validated += len(trace) - len(bad)
+    for e in trace:
+        if e["ev"] == "Iso" and e["kind"] != "self":
+            ctx.distinct.add(h([e["d1"], e["d2"]]))
+    ctx.samples += [{"kind": e["kind"], "d1": show_quads(e["d1"]), "d2": show_quads(e["d2"]), "answers": e["res"][:2]} for e in trace[1:400:97] if e["ev"] == "Iso"]
+    mc.join()
+    ctx.rule = ("%d random generalized datasets (<=4 blank nodes anywhere: subject, predicate, object, graph name, inside quoted triples nested to depth 2; <=5 quads), each compared with itself, "
+                "a relabelled+shuffled copy (fresh labels or a permutation of its own) and 7 kinds of one-step mutants, over 5 container pairs (+ graphs) in both argument orders; "
+                "TLC decides isomorphism by brute force over all blank-node bijections (Iso.tla). distinct = distinct (d1,d2) pairs other than self" % n)
+    ctx.assumptions += ["non-isomorphic pairs that pass the cheap filters are not judged (documented incompleteness of the algorithm)"]
+
+
 FAMILIES = {
+    "C07": c07,
     "C09": c09,
     "C17": c17,
     "C10": c10,
